@@ -362,7 +362,7 @@ func init() {
 	fw.Register(&fw.Property{
 		ID:          "C18",
 		Level:       "exploration",
-		Rule:        "valid streams (packfiles of 1..20 objects incl. 1-byte and 100 KiB objects, pkt-line sequences incl. flush packets, encoded commit (text fields up to 65535 bytes), pkt-lines up to 3 KB, table of 0..600 blocks with column names up to 800 bytes, block, block index, profile, uint list, string list) are decoded from a bytes.Reader and then under every chunker: one byte per read, half reads, data together with the error, last bytes together with io.EOF, (0,nil) reads before data, 10 seeded random chunk sizes, and a cut exactly after each of the first header bytes / inside every object header; the decoded value and terminal condition must equal the whole-buffer decode; the answers of /upload-pack/ (negotiation JSON with 0..1000 acks, packfile), /objects/ and /refs/ read by the real client over HTTP while the server writes them whole, byte by byte, in two pieces or in random flushed pieces; distinct_nontrivial = distinct (stream kind, size, byte length)",
+		Rule:        "valid streams (packfiles of 1..20 objects incl. 1-byte and 100 KiB objects, pkt-line sequences incl. flush packets, encoded commit (text fields up to 65535 bytes), pkt-lines up to 3 KB, table of 0..600 blocks with column names up to 800 bytes, block, block index, profile, uint list, string list) are decoded from a bytes.Reader and then under every chunker: one byte per read, half reads, data together with the error, last bytes together with io.EOF, (0,nil) reads before data, 10 seeded random chunk sizes, and a cut exactly after each of the first header bytes / inside every object header; the decoded value and terminal condition must equal the whole-buffer decode; the answers of /upload-pack/ (negotiation JSON with 0..1000 acks, packfile), /objects/ and /refs/ read by the real client over HTTP while the server writes them whole, byte by byte, in two pieces or in random flushed pieces - plainly, under a gzip content encoding that the client's transport undoes, and over HTTP/2 on TLS; distinct_nontrivial = distinct (stream kind, size, byte length)",
 		Assumptions: []string{"readers that return (0,nil) forever violate io.Reader's contract and are not used", "HTTP answers are produced by an httptest server in this process and read by wrgl's own client over the loopback interface"},
 		Gen: func(tier string, seed int64) []fw.Case {
 			l := fw.NewCaseList("C18", tier, seed)
@@ -375,9 +375,7 @@ func init() {
 					l.Add(st, c18Params{Stream: st, Size: rng.Intn(300)}, 0)
 				}
 				l.Add("table", c18Params{Stream: "table", Size: []int{0, 1, 3, 40, 600}[rng.Intn(5)]}, 0)
-				if r%2 == 0 {
-					l.Add("http", c18Params{Stream: "http", Size: r/2 + rng.Intn(600)*6}, 0)
-				}
+				l.Add("http", c18Params{Stream: "http", Size: r + rng.Intn(600)*6}, 0)
 			}
 			return l.Cases
 		},
